@@ -39,7 +39,8 @@ MANIFEST = {
 }
 GEN = ["PdTable"]
 MODELS = ["OptiVerif.Model.Pd", "OptiVerif.Model.PdFull", "OptiVerif.Gen.PdTable"]
-RULE = ("cases = PD calls on random / CW optical fields (N in {17,18,31,32,33,64,100,127}, 1/2 pol, with/without optical noise) x every "
+RULE = ("cases = PD calls on random / CW optical fields (N in {17,18,31,32,33,64,100,127}, 1/2 pol, with/without optical noise, "
+        "complex128 / float64 / int64 arrays for signal AND noise) x every "
         "include_noise option in random letter case x r in (0,1] (incl. 1, int 1) x T (incl. 0) x R_load x i_dark x Fn x gv(sps,R) (plus every other form of gv(...): (sps,fs), (R,fs) with non-integer fs/R so that sps*R != fs, fs alone, "
         "with/without N; noise bandwidth must be gv.fs/2) x BW in "
         "(0,fs/2) x numpy seed, each with twin calls (other seed, phase rotation, unitary mixing, scaled r/R_load, scaled amplitude); "
@@ -118,6 +119,7 @@ def gen_cases(rng, tier):
                     recur = [b for b in BW_RECUR if 0.02 * fs <= b <= 0.45 * fs]
                     cases.append({
                         "kind": "run", "n": rng.choice(LENS), "npol": npol, "noise": noise,
+                        "dtype": rng.choice(["complex", "complex", "float", "int"]),
                         # "darkpol": a two-polarisation field whose y polarisation carries NO signal but (when noise is on) does carry noise
                         "field": rng.choice(["random", "random", "cw", "darkpol"] if npol == 2 else ["random", "random", "cw"]),
                         "amp": rng.choice([1.0, 0.03, 1e-3]),
@@ -132,6 +134,8 @@ def gen_cases(rng, tier):
                         "twin_r": rng.uniform(0.1, 1.0), "twin_R": rng.uniform(10.0, 500.0),
                         "twin_c": [rng.uniform(-2, 2), rng.uniform(-2, 2)], "twin_persample": rng.random() < 0.5,
                     })
+                    if cases[-1]["dtype"] == "int" and cases[-1]["field"] == "cw":
+                        cases[-1]["field"] = "random"
     # every form of gv(...) — the sigmas handed to the RNG must follow B = gv.fs/2 for the sampling rate actually in force
     for kw, fs_req in GV_FORMS:
         for opt in (("thermal-shot", "all") if tier == "quick" else ("thermal-shot", "all", "thermal-only", "shot-only", "ase-shot")):
@@ -244,6 +248,25 @@ def _field(case):
     g = np.random.default_rng(case["seed"])
     n, npol = case["n"], case["npol"]
     shape = (n,) if npol == 1 else (2, n)
+    dtype = case.get("dtype", "complex")
+    if dtype == "int":
+        # int64 signal AND noise arrays (ndarray.conj() of a real array is the array itself); amplitudes != 1
+        s = g.integers(2, 7, size=shape) * g.choice([-1, 1], size=shape)
+        if case["field"] == "darkpol" and npol == 2:
+            s[1] = 0
+        nz = g.integers(-3, 4, size=shape) if case["noise"] else None
+        return s.astype(np.int64), None if nz is None else nz.astype(np.int64)
+    if dtype == "float":
+        sign = g.choice([-1.0, 1.0], size=shape)
+        if case["field"] == "cw":
+            th = g.uniform(0, np.pi / 2)
+            s = case["amp"] * sign if npol == 1 else case["amp"] * np.array([np.cos(th), np.sin(th)])[:, None] * sign
+        else:
+            s = case["amp"] * g.normal(size=shape)
+            if case["field"] == "darkpol" and npol == 2:
+                s[1] = 0.0
+        nz = 0.2 * case["amp"] * g.normal(size=shape) if case["noise"] else None
+        return s.astype(np.float64), nz
     if case["field"] == "cw":
         ph = g.uniform(0, 2 * np.pi, size=shape)
         if npol == 1:
@@ -332,11 +355,16 @@ class _Spies:
         return False
 
 
-def _call_pd(case, s, nz, r, T, Rl, sel, seed, store_values=True, inp_kind="optical", positional=False):
-    """one call of the real PD under the spies. returns dict"""
+_MON = []      # operands-unchanged monitor: one record per real PD call of the current run_impl
+
+
+def _call_pd(case, s, nz, r, T, Rl, sel, seed, store_values=True, inp_kind="optical", positional=False, x_obj=None):
+    """one call of the real PD under the spies and the operands-unchanged monitor. returns dict"""
     from opticomlib.typing import optical_signal, electrical_signal
     from opticomlib.devices import PD
-    if inp_kind == "optical":
+    if x_obj is not None:
+        x = x_obj
+    elif inp_kind == "optical":
         x = optical_signal(s, nz, n_pol=case["npol"])
     elif inp_kind == "ndarray":
         x = np.array(s)
@@ -348,7 +376,9 @@ def _call_pd(case, s, nz, r, T, Rl, sel, seed, store_values=True, inp_kind="opti
         x = None
     before = None
     if inp_kind == "optical":
-        before = (x.signal.copy(), None if x.noise is None else x.noise.copy())
+        before = (x.signal.tobytes(), str(x.signal.dtype), x.signal.shape,
+                  None if x.noise is None else (x.noise.tobytes(), str(x.noise.dtype), x.noise.shape))
+        out_dt = {"sig_dtype": str(x.signal.dtype), "noise_dtype": None if x.noise is None else str(x.noise.dtype)}
     out = {}
     np.random.seed(seed)
     import opticomlib.devices as dev
@@ -376,7 +406,17 @@ def _call_pd(case, s, nz, r, T, Rl, sel, seed, store_values=True, inp_kind="opti
     # the sections PD's own filter used, their sosfilt_zi state, scipy's pad length, and the hypotheses of C11's dc_gain on them
     out["filter"], out["filter_remarks"] = (_c11._params(fsp) if fsp.ff else (None, []))
     if before is not None:
-        out["in_unchanged"] = bool(np.array_equal(x.signal, before[0]) and (x.noise is None or np.array_equal(x.noise, before[1])))
+        after = (x.signal.tobytes(), str(x.signal.dtype), x.signal.shape,
+                 None if x.noise is None else (x.noise.tobytes(), str(x.noise.dtype), x.noise.shape))
+        out["in_unchanged"] = before == after            # bytes, dtype and shape of input.signal / input.noise
+        out.update(out_dt)
+        out["alias"] = False
+        if out.get("status") == "ok":
+            ins = [a for a in (x.signal, x.noise) if a is not None]
+            outs = [a for a in (y.signal, y.noise) if isinstance(a, np.ndarray)]
+            out["alias"] = any(np.shares_memory(a, b) for a in ins for b in outs)
+        _MON.append({"call": len(_MON), "unchanged": out["in_unchanged"], "alias": out["alias"], "positional": positional,
+                     "reused_object": x_obj is not None})
     return out
 
 
@@ -386,7 +426,8 @@ def _fl(a):
 
 def _pack(call, full=True):
     """JSON-serialisable view of one call"""
-    d = {k: call[k] for k in ("status", "err", "detail", "cls", "len", "in_unchanged", "filter", "filter_remarks") if k in call}
+    d = {k: call[k] for k in ("status", "err", "detail", "cls", "len", "in_unchanged", "alias", "sig_dtype", "noise_dtype", "filter",
+                              "filter_remarks") if k in call}
     d["rng"] = [{"loc": q["loc"], "scale": q["scale"], "size": q["size"], **({"values": _fl(q["values"])} if full else {})}
                 for q in call["rng"]]
     d["lpf_calls"] = len(call["lpf"])
@@ -425,8 +466,15 @@ def _maxrel(a, b):
 
 
 def run_impl(case):
+    res = _run_impl(case)
+    res["monitor"] = list(_MON)
+    return res
+
+
+def _run_impl(case):
     from opticomlib.typing import gv
     import scipy.constants as sc
+    del _MON[:]
     res = {"kB": sc.k, "e": sc.e}
     try:
         with warnings.catch_warnings():
@@ -468,6 +516,15 @@ def run_impl(case):
             res["main"] = _pack(main)
             if case["kind"] == "run" and main["status"] == "ok":
                 tw = {}
+                # (0) the SAME input object handed to PD three times under the same seed: identical results every time (a call that
+                #     writes into its input compounds on the next one)
+                from opticomlib.typing import optical_signal
+                xo = optical_signal(s, nz, n_pol=case["npol"])
+                reps = [_call_pd(case, s, nz, r, T, Rl, sel, case["np_seed"], x_obj=xo) for _ in range(3)]
+                tw["repeat"] = {"status": [c["status"] for c in reps],
+                                "identical": all(c["status"] == "ok" and np.array_equal(c["out_sig"], main["out_sig"], equal_nan=True)
+                                                 and np.array_equal(c["out_noise"], main["out_noise"], equal_nan=True) for c in reps),
+                                "noise_dev": [(_maxrel(c["out_noise"], main["out_noise"]) if c["status"] == "ok" else None) for c in reps]}
                 # (a) another seed: the signal part must not move
                 c = _call_pd(case, s, nz, r, T, Rl, sel, case["np_seed2"])
                 tw["reseed"] = {"status": c["status"], "sig_identical": c["status"] == "ok" and bool(np.array_equal(c["out_sig"], main["out_sig"]))}
@@ -816,7 +873,13 @@ def oracle(case, res):
         v.append(("C09:length", f"output {main['cls']} of length {main['len']} for an input of length {n}"))
         return v
     if not main.get("in_unchanged", True):
-        v.append(("C09:input-modified", "PD modified its input"))
+        v.append(("C09:input-modified", f"PD modified its input (signal dtype {main.get('sig_dtype')}, noise dtype {main.get('noise_dtype')})"))
+    bad = [m for m in res.get("monitor", []) if not m["unchanged"]]
+    if bad and main.get("in_unchanged", True):
+        v.append(("C09:input-modified", f"PD changed the bytes of input.signal / input.noise in {len(bad)} of {len(res['monitor'])} calls "
+                  f"(first: call {bad[0]['call']}; signal dtype {main.get('sig_dtype')}, noise dtype {main.get('noise_dtype')})"))
+    if any(m["alias"] for m in res.get("monitor", [])):
+        v.append(("C09:alias", "an array of PD's result shares memory with input.signal / input.noise"))
     # --- before the filter (spied): square law and the selected noise terms
     if main["lpf_calls"] != 1 or main["lpf_BW"] != case["BW"] or main["lpf_extra"]:
         v.append(("C09:filter-call", f"output filter called {main['lpf_calls']} times / BW {main.get('lpf_BW')} / extra args {main.get('lpf_extra')}"))
@@ -877,6 +940,9 @@ def oracle(case, res):
                               f"noise {t['noise_err']:.3e}, sigma {t['rng_scale_err']:.3e} (relative)"))
         if tw["lin"]["status"] != "ok" or _exceeds(tw["lin"]["err"], 1e-9):
             v.append(("C09:linear-r-R", f"signal part not proportional to r*R_load: {tw['lin']}"))
+        if "repeat" in tw and not tw["repeat"]["identical"]:
+            v.append(("C09:repeat", f"PD called three times on the SAME input object under the same seed does not reproduce the first result: "
+                      f"status {tw['repeat']['status']}, relative noise deviations {tw['repeat']['noise_dev']}"))
         if "positional" in tw and not tw["positional"]["identical"]:
             t = tw["positional"]
             v.append(("C09:positional:PD", f"PD(input, BW, r, T, R_load, include_noise, i_dark, Fn) called positionally in the documented order "
@@ -928,6 +994,7 @@ def features(case, res):
             f.append("gv(" + ",".join(sorted(case["gv"])) + ")")
             st = res.get("gv_state") or {}
             f.append("sps*R!=fs" if st and st["sps"] * st["R"] != st["fs"] else "sps*R==fs")
+        f.append("dtype=" + case.get("dtype", "complex"))
         f += ["opt=" + case["sel"]["v"].lower(), f"npol={case['npol']}", "optical-noise" if case["noise"] else "no-optical-noise",
               "field=" + case["field"], f"draws={len(m.get('rng', []))}",
               "case=" + ("lower" if case["sel"]["v"].islower() else "upper" if case["sel"]["v"].isupper() else "mixed")]
